@@ -2020,7 +2020,18 @@ def accessor_tables(gofile: GoFile, type_name: str) -> dict:
             out["default"][table] = None
             out["problems"].append(f"{type_name}.{table}: method missing")
             continue
-        body = fn.body
+        body = list(fn.body)
+        # Equivalent ways of saying "no case applies" are all fine: an empty body (no field needs a case), a switch without a
+        # default branch, a switch followed by a plain `return ...` (the property speaks about the cases, not about this layout).
+        if not body:
+            out["default"][table] = False
+            continue
+        trailing = None
+        if len(body) == 2 and body[0][0] == "switch" and body[1][0] == "return":
+            trailing = stmt_str(body[1])
+            body = body[:1]
+            if trailing not in _DEFAULT_SHAPES[table]:
+                out["problems"].append(f"{type_name}.{table}: unexpected statement after the switch `{trailing}`")
         sw = body[0] if len(body) == 1 and body[0][0] == "switch" else None
         tag_ok = False
         if sw is not None and sw[1] is None and sw[2] is not None:
